@@ -4,6 +4,9 @@ package main
 // the regular expression of database.Register.
 
 import (
+	"strings"
+	"strconv"
+	"encoding/json"
 	"fmt"
 	"go/types"
 )
@@ -34,10 +37,53 @@ func init() {
 	reg("github.com/tidwall/gjson.GetBytes", func(fr *frame, args []Value) Value {
 		e := fr.e
 		doc, ok := concStr(Str{bytesOf(args[0])})
-		if !ok || (doc != "{}" && doc != "") {
-			unsupported("gjson.GetBytes on a document other than {}")
+		rt := e.namedType("github.com/tidwall/gjson", "Result")
+		if ok && (doc == "{}" || doc == "") {
+			return e.zero(rt)
 		}
-		return e.zero(e.namedType("github.com/tidwall/gjson", "Result"))
+		// a concrete flat object and a plain key: looked up on the host (numbers,
+		// strings, booleans and null members; gjson's path syntax is outside)
+		key, kok := concStr(args[1].(Str))
+		if !ok || !kok || strings.ContainsAny(key, ".*?#|@\\") {
+			unsupported("gjson.GetBytes on a document other than a concrete flat object with a plain key")
+		}
+		var members map[string]json.RawMessage
+		if err := json.Unmarshal([]byte(doc), &members); err != nil {
+			unsupported("gjson.GetBytes on a document that is not a flat object")
+		}
+		raw, found := members[key]
+		r := e.zero(rt).(Struct)
+		if !found {
+			return r
+		}
+		text := strings.TrimSpace(string(raw))
+		setField(r, rt, "Raw", e.strConst(text))
+		setField(r, rt, "Index", e.tt.BV(64, uint64(strings.Index(doc, text))))
+		switch {
+		case text == "null":
+			setField(r, rt, "Type", e.tt.BV(64, 0))
+		case text == "false":
+			setField(r, rt, "Type", e.tt.BV(64, 1))
+		case text == "true":
+			setField(r, rt, "Type", e.tt.BV(64, 4))
+		case strings.HasPrefix(text, "\""):
+			var sv string
+			if err := json.Unmarshal(raw, &sv); err != nil {
+				unsupported("gjson.GetBytes: string member")
+			}
+			setField(r, rt, "Type", e.tt.BV(64, 3))
+			setField(r, rt, "Str", e.strConst(sv))
+		case strings.HasPrefix(text, "{") || strings.HasPrefix(text, "["):
+			unsupported("gjson.GetBytes on a nested member")
+		default:
+			f, err := strconv.ParseFloat(text, 64)
+			if err != nil {
+				unsupported("gjson.GetBytes: number member")
+			}
+			setField(r, rt, "Type", e.tt.BV(64, 2))
+			setField(r, rt, "Num", Float{f})
+		}
+		return r
 	})
 	reg("(github.com/tidwall/gjson.Result).ForEach", func(fr *frame, args []Value) Value {
 		e := fr.e
